@@ -170,13 +170,11 @@ class Interp(_Interp):
                 kind, srcs = self.iterate(args[0], node, frame)
                 if kind != "concrete":
                     return App("chain", (srcs,))
-            out = []
+            # concatenation of partially known sequences: the known items (records yielded by generators, ...) stay known
+            cparts: list = []
             for s in srcs:
-                kind, items = self.iterate(s, node, frame)
-                if kind != "concrete":
-                    return App("chain", tuple(_h(x) for x in srcs))
-                out.extend(items)
-            return out
+                cparts.extend(self.parts_of(s, node, frame))
+            return self.seq_value(cparts)
         if dotted == "itertools.accumulate":
             kind, items = self.iterate(args[0], node, frame)
             if kind != "concrete":
@@ -242,6 +240,8 @@ class Interp(_Interp):
             v = args[0]
             if isinstance(v, Seq):
                 return len(v.items()) if v.concrete else App("len", (_h(v),))
+            if isinstance(v, (list, dict, set)) and self.opened(v) is not None:
+                return App("len", (self.opened(v).src,))
             if isinstance(v, (list, tuple, dict, set, frozenset, str)):
                 return len(v)
             if isinstance(v, Term):
@@ -421,6 +421,22 @@ class Interp(_Interp):
             return App(f"meth:{name}", (show(recv), *[_h(a) for a in args]))
         if isinstance(recv, ExtView):
             return self.view_method(recv, name, args, kwargs, node, frame)
+        if name.startswith("namedtuple."):
+            which = name.split(".")[1]
+            if which == "_make":
+                kind, items = self.iterate(args[0], node, frame)
+                if kind != "concrete":
+                    raise Unsupported("NamedTuple._make of an unknown iterable", node, fi)
+                return self.instantiate(recv.ci, list(items), {}, node, frame)
+            names = list(recv.args[1:])
+            if which == "_replace":
+                if args or any(k not in names for k in kwargs):
+                    raise Raised(None, "ValueError" if not args else "TypeError")
+                new = Inst(recv.ci, {n: kwargs.get(n, recv.fields[n]) for n in names}, recv.args, recv.site)
+                return new
+            if which == "_asdict":
+                return {n: recv.fields[n] for n in names}
+            return self.call_method_builtin(tuple(recv.fields[n] for n in names), which, args, kwargs, node, frame)
         if isinstance(recv, Inst) and name.startswith("NodeVisitor."):
             return self.node_visitor(recv, name.split(".")[1], args[0], node, frame)
         if isinstance(recv, Term):
@@ -504,15 +520,42 @@ class Interp(_Interp):
             recv.append(args[0]) if name == "append" else recv.insert(0, args[0])
             return None
         if name in ("extend", "extendleft"):
-            kind, items = self.iterate(args[0], node, frame)
+            kind, items = self.iterate3(args[0], node, frame)
             if kind != "concrete":
-                raise Unsupported("list.extend with an iterable of unknown length", node, fi)
+                items = items.items() if kind == "seq" else []
+                self.open_container(recv, "list", False)  # known items are kept, the rest is an unknown number of unknown elements
             if name == "extend":
                 recv.extend(items)
             else:
                 for x in items:
                     recv.insert(0, x)
             return None
+        o = self.opened(recv)
+        if o is not None and name in ("pop", "popleft", "index", "count", "remove", "sort", "copy", "clear", "insert"):
+            if name == "clear":
+                recv.clear()
+                self.open.pop(id(recv), None)
+                return None
+            if name == "copy":
+                c = list(recv)
+                self.open[id(c)] = type(o)(c, o.name, o.epoch, o.ver)
+                return c
+            if name in ("pop", "popleft"):
+                o.epoch += 1
+                return App("elem", (o.src,))
+            if name == "insert":
+                recv.append(args[1])
+                return None
+            if name == "sort":
+                return None  # the known items are kept in some order; the container is iterated as unordered anyway
+            if name == "remove":
+                o.epoch += 1
+                for i, x in enumerate(recv):
+                    if x is args[0] or (isinstance(x, Term) and x == args[0]):
+                        del recv[i]
+                        break
+                return None
+            return App(f"meth:{name}", (o.src, *[_h(a) for a in args]))
         if name in ("pop", "popleft"):
             if not recv:
                 raise Raised(None, "IndexError")
@@ -560,17 +603,24 @@ class Interp(_Interp):
 
     def dict_method(self, recv: dict, name: str, args: list, kwargs: dict, node, frame) -> Any:
         fi = frame.fi if frame else None
+        o = self.opened(recv)
         if name == "get":
             key = self.dict_key(recv, _hashable(args[0]))
             if key is not _MISSING:
                 return recv[key]
+            if o is not None and self.decide(self.member_atom(o, args[0])):
+                return App("value", (o.src, _h(args[0])))
             return args[1] if len(args) > 1 else kwargs.get("default")
         if name == "setdefault":
             key = self.dict_key(recv, _hashable(args[0]))
             if key is _MISSING:
+                if o is not None and self.decide(self.member_atom(o, args[0])):
+                    return App("value", (o.src, _h(args[0])))
                 key = _hashable(args[0])
                 recv[key] = args[1] if len(args) > 1 else None
             return recv[key]
+        if o is not None and name in ("items", "keys", "values"):
+            return Seq(self.open_parts(recv, name), unordered=True)
         if name == "items":
             return list(recv.items())
         if name == "keys":
@@ -582,9 +632,10 @@ class Interp(_Interp):
                 if isinstance(a, dict):
                     recv.update(a)
                 else:
-                    kind, items = self.iterate(a, node, frame)
+                    kind, items = self.iterate3(a, node, frame)
                     if kind != "concrete":
-                        raise Unsupported("dict.update with an unknown iterable", node, fi)
+                        items = items.items() if kind == "seq" else []
+                        self.open_container(recv, "dict", False)
                     for k, v in items:
                         recv[_hashable(k)] = v
             recv.update(kwargs)
@@ -593,13 +644,20 @@ class Interp(_Interp):
             k = self.dict_key(recv, _hashable(args[0]))
             if k is not _MISSING:
                 return recv.pop(k)
+            if o is not None and self.decide(self.member_atom(o, args[0])):
+                o.epoch += 1
+                return App("value", (o.src, _h(args[0])))
             if len(args) > 1:
                 return args[1]
             raise Raised(None, "KeyError")
         if name == "copy":
-            return dict(recv)
+            c = dict(recv)
+            if o is not None:
+                self.open[id(c)] = type(o)(c, o.name, o.epoch, o.ver)
+            return c
         if name == "clear":
             recv.clear()
+            self.open.pop(id(recv), None)
             return None
         raise Unsupported(f"dict.{name}", node, fi)
 
@@ -612,9 +670,12 @@ class Interp(_Interp):
         if name in ("update", "union", "difference", "intersection", "difference_update", "issubset", "issuperset", "isdisjoint"):
             others = []
             for a in args:
-                kind, items = self.iterate(a, node, frame)
+                kind, items = self.iterate3(a, node, frame)
                 if kind != "concrete":
-                    raise Unsupported(f"set.{name} with an iterable of unknown length", node, fi)
+                    if name != "update":
+                        raise Unsupported(f"set.{name} with an iterable of unknown length", node, fi)
+                    items = items.items() if kind == "seq" else []
+                    self.open_container(recv, "set", False)
                 others.extend(items)
             if name in ("update", "union"):
                 tgt = recv if name == "update" else set(recv)
@@ -635,16 +696,29 @@ class Interp(_Interp):
             if name == "issuperset":
                 return all(self.contains(recv, x) for x in others)
             return not any(self.contains(others, x) for x in recv)
+        if name in ("discard", "remove") and o is not None:
+            o.epoch += 1
         if name in ("discard", "remove"):
             for x in list(recv):
                 if self.equal(x, args[0]):
                     recv.discard(x)
                     return None
-            if name == "remove":
+            if name == "remove" and o is None:
                 raise Raised(None, "KeyError")
             return None
+        o = self.opened(recv)
         if name == "copy":
-            return set(recv)
+            c = set(recv)
+            if o is not None:
+                self.open[id(c)] = type(o)(c, o.name, o.epoch, o.ver)
+            return c
+        if name == "clear":
+            recv.clear()
+            self.open.pop(id(recv), None)
+            return None
+        if o is not None and name == "pop":
+            o.epoch += 1
+            return App("elem", (o.src,))
         if name == "pop":
             if not recv:
                 raise Raised(None, "KeyError")
@@ -691,21 +765,26 @@ class Interp(_Interp):
         v = o.version
         where = f"{fi.relpath}:{getattr(node, 'lineno', 0)}" if fi is not None and node is not None else ""
         if name in ("add_edges_from", "add_nodes_from") and args:
-            kind, items = self.iterate(args[0], node, frame)
-            if kind == "concrete":
-                for x in items:
-                    if name == "add_nodes_from":
-                        nd, extra = (x[0], x[1]) if isinstance(x, tuple) and len(x) == 2 and isinstance(x[1], dict) else (x, {})
-                        self.effects.append(Effect("ext", o, "add_node", (nd,), {**kwargs, **extra}, self.in_loop > 0, dict(self.path), v, where))
-                    else:
-                        if not isinstance(x, (tuple, list)) or len(x) < 2:
-                            raise Unsupported("add_edges_from with an element that is not a pair", node, fi)
-                        extra = x[2] if len(x) > 2 and isinstance(x[2], dict) else {}
-                        self.effects.append(Effect("ext", o, "add_edge", (x[0], x[1]), {**kwargs, **extra}, self.in_loop > 0, dict(self.path), v, where, len(self.decisions)))
-                o.version += 1
-                return None
+            # the known items of a partially known collection are added one by one; the unknown rest stays one opaque bulk effect
+            for part in self.parts_of(args[0], node, frame):
+                if part[0] != "item":
+                    self.effects.append(Effect("ext", o, name, (part[2],), dict(kwargs), True, dict(self.path), v, where, len(self.decisions)))
+                    continue
+                x = part[1]
+                if name == "add_nodes_from":
+                    nd, extra = (x[0], x[1]) if isinstance(x, tuple) and len(x) == 2 and isinstance(x[1], dict) else (x, {})
+                    self.effects.append(Effect("ext", o, "add_node", (nd,), {**kwargs, **extra}, self.in_loop > 0, dict(self.path), v, where, len(self.decisions), (*self.iter_origins, *([(part[2], part[3])] if len(part) > 2 else []))))
+                else:
+                    if isinstance(x, Inst) and x.args[:1] == ("namedtuple",):
+                        x = tuple(x.fields[n] for n in x.args[1:])
+                    if not isinstance(x, (tuple, list)) or len(x) < 2:
+                        raise Unsupported("add_edges_from with an element that is not a pair", node, fi)
+                    extra = x[2] if len(x) > 2 and isinstance(x[2], dict) else {}
+                    self.effects.append(Effect("ext", o, "add_edge", (x[0], x[1]), {**kwargs, **extra}, self.in_loop > 0, dict(self.path), v, where, len(self.decisions), tuple(self.iter_origins)))
+            o.version += 1
+            return None
         if name in MUTATORS:
-            self.effects.append(Effect("ext", o, name, tuple(args), dict(kwargs), self.in_loop > 0, dict(self.path), v, where, len(self.decisions)))
+            self.effects.append(Effect("ext", o, name, tuple(args), dict(kwargs), self.in_loop > 0, dict(self.path), v, where, len(self.decisions), tuple(self.iter_origins)))
             o.version += 1
             return None
         if name in ("has_node", "__contains__"):
